@@ -276,6 +276,7 @@ func (g *Gen) Step() bool {
 		choice{g.wt("inject"), func() { g.opInject(conns, pend) }},
 		choice{g.wt("cidevent") * boolInt(len(conns) > 0), func() { g.opCIDEvent(conns) }},
 		choice{g.wt("badanswer") * boolInt(len(pend) > 0), func() { g.opBadAnswer(pend) }},
+		choice{g.wt("badevent"), g.opBadEvent},
 		choice{g.wt("sleep") * boolInt(g.w.Cfg.UnsubDelayMs > 0), func() {
 			g.w.Exec(Op{K: "sleep", N: g.w.Cfg.UnsubDelayMs/2 + rapid.IntRange(0, g.w.Cfg.UnsubDelayMs).Draw(g.t, "sleepms")})
 		}},
@@ -1359,6 +1360,34 @@ func (g *Gen) opBadAnswer(pend []PendingView) {
 		op.P = `{"resource":{"rid":` + bj + `}}`
 	}
 	g.w.Exec(op)
+}
+
+// opBadEvent: a service event that carries a reference which is no valid
+// resource id (change, legacy change, add; hard and soft). It is not to be
+// followed: no subject derived from it may appear.
+func (g *Gen) opBadEvent() {
+	if len(g.names) == 0 {
+		return
+	}
+	name := g.sample("bename", g.names)
+	d := g.w.Svc.def(name)
+	if d == nil {
+		return
+	}
+	bad := g.sample("badrid", []string{"t.*", "t.>", "t..a", "", "t. a", ".t", "t.", "t.a\n", "?q", "t.é", ">", "t.\t"})
+	ref := `{"rid":` + jstr(bad) + `}`
+	if rapid.IntRange(0, 3).Draw(g.t, "besoft") == 0 {
+		ref = `{"rid":` + jstr(bad) + `,"soft":true}`
+	}
+	if d.Type == "collection" {
+		g.w.Exec(Op{K: "rawev", S: "event." + name + ".add", P: `{"idx":0,"value":` + ref + `}`, Key: "badevent"})
+		return
+	}
+	if rapid.IntRange(0, 3).Draw(g.t, "belegacy") == 0 {
+		g.w.Exec(Op{K: "rawev", S: "event." + name + ".change", P: `{"zz":` + ref + `}`, Key: "badevent"})
+		return
+	}
+	g.w.Exec(Op{K: "rawev", S: "event." + name + ".change", P: `{"values":{"zz":` + ref + `}}`, Key: "badevent"})
 }
 
 // opCIDEvent mutates (and announces) the {cid} resource instance of one connection.
